@@ -1922,3 +1922,115 @@ def _loop_counter_names(fi: FuncInfo) -> Set[str]:
                 if isinstance(e, ast.Name):
                     out.add(e.id)
     return out
+
+
+def rule_lp_result_use(ctx: Ctx, key: str, rule: str = "lp-result-use") -> None:
+    """C14: when the solver does not finish with status 0 the result has no optimum (`fun`, `x`, `slack` are None).
+    On every path taken under status 1..4 these fields must not enter arithmetic or a comparison: otherwise
+    TypeError escapes instead of a documented error."""
+    prog = ctx.prog
+    fi = prog.func(key)
+    short = key.split(".")[-1]
+    n = 0
+    for s in (1, 2, 3, 4):
+        ps = lp_paths(prog, key, s)
+        bad: Dict[str, str] = {}
+        for p in ps:
+            n += 1
+            roots = [p.value] if p.value is not None else []
+            for e in p.events:
+                roots += [v for v in list(e.get("args", ())) + [x for _k, x in e.get("kws", ())] + [e.get("recv"), e.get("value"), e.get("test"), e.get("rhs")] if v is not None]
+            for r in roots:
+                for x in walk(r):
+                    if not (isinstance(x, tuple) and x and x[0] in ("un", "bin", "cmp")):
+                        continue
+                    ops = [x[2]] if x[0] == "un" else [x[2], x[3]]
+                    if x[0] == "un" and x[1] == "Not":
+                        continue
+                    for o in ops:
+                        for fld in ("fun", "x", "slack"):
+                            if is_res_field(o, fld):
+                                bad[show(x, 3)] = p.label()
+        construct = "%s: the solver's optimum is not used when the solve ended with status %d" % (short, s)
+        if not ps:
+            ctx.cannot_decide(rule, key, construct, "no path through the linprog call")
+        elif bad:
+            k0 = sorted(bad)[0]
+            ctx.violation(rule, key, construct, "%s is evaluated although the result has no optimum (None): TypeError (path %s)" % (k0, bad[k0]), where=fi.where)
+        else:
+            ctx.ok(rule, key, construct)
+    ctx.floor("%s LP paths under a failed solve" % short, n, 2)
+
+
+def rule_lp_zero_columns(ctx: Ctx, key: str, mats: List[str], vecs: List[str], rule: str = "lp-zero-columns", any_of: bool = False) -> None:
+    """C11/C03/C07/C14: a list whose terms mention no variable at all (rows '0 <= b', e.g. after like terms cancel)
+    becomes a matrix with rows and no columns.  Decided with the column count fixed to 0 and at least one row:
+    (i) linprog is never reached (scipy rejects an empty objective with a ValueError of its own, so the answer would be
+    an error for a perfectly decidable question); (ii) whatever is returned has been made to depend on the bounds
+    (a row '0 <= b' is satisfiable iff b >= 0; an answer that never looks at b cannot be right for both signs)."""
+    prog = ctx.prog
+    fi = prog.func(key)
+    short = key.split(".")[-1]
+
+    def shape_atom(v, idx: int) -> bool:
+        return (
+            isinstance(v, tuple)
+            and v
+            and v[0] in ("item", "sub")
+            and isinstance(v[1], tuple)
+            and v[1][0] == "attr"
+            and v[1][2] == "shape"
+            and v[1][1] in [("param", m) for m in mats]
+            and (v[2] == idx or v[2] == const(idx))
+        )
+
+    def scen(v):
+        if shape_atom(v, 1):
+            return const(0)
+        if isinstance(v, tuple) and v and v[0] == "bin" and v[1] == "Mult":
+            if any(shape_atom(o, 1) or o == const(0) for o in (v[2], v[3])):
+                return const(0)
+        if isinstance(v, tuple) and v and v[0] == "cmp" and v[1] in ("Eq", "NotEq", "Gt") and v[3] == const(0):
+            x = v[2]
+            if shape_atom(x, 0) or (isinstance(x, tuple) and x[0] == "call" and x[1] == "len" and x[2] and x[2][0] in [("param", m) for m in mats]):
+                return const(v[1] != "Eq")  # at least one row
+        return None
+
+    ps = Sim(prog, fi, assume=status_assume(None, scen), loop_iters=(0, 1)).paths()
+    construct = "%s: rows without any column (0 <= b) are decided from the bounds, without an LP" % short
+    if not ps:
+        ctx.cannot_decide(rule, key, construct, "no path")
+        return
+    lp = [p for p in ps if p.calls("linprog")]
+    if lp:
+        ctx.violation(rule, key, construct, "linprog is reached with an empty objective (no columns): scipy rejects the call although the question is decidable from the bounds alone (path %s)" % lp[0].label()[:160], where=fi.where)
+        return
+    blind = []
+    for p in ps:
+        if p.terminal != "return":
+            continue
+        missing = []
+        for bname in vecs:
+            isb = lambda y, bname=bname: y == ("param", bname)  # noqa: E731
+            def examines(v, isb=isb) -> bool:
+                """a comparison over the bounds, or the answer of a routine of the package that was handed the bounds"""
+                for x in walk(v):
+                    if isinstance(x, tuple) and x and x[0] == "cmp" and mentions(x, isb):
+                        return True
+                    if isinstance(x, tuple) and x and x[0] == "call" and "." in str(x[1]) and not str(x[1]).startswith("numpy") and any(mentions(a, isb) for a in x[2]):
+                        return True
+                return False
+
+            looked = examines(p.value) if p.value is not None else False
+            for e in p.events:
+                if e["kind"] == "branch" and examines(e["test"]):
+                    looked = True
+            if not looked:
+                missing.append(bname)
+        if missing and (not any_of or len(missing) == len(vecs)):
+            blind.append((p, missing))
+    if blind:
+        p, missing = blind[0]
+        ctx.violation(rule, key, construct, "returns %s without ever looking at the bounds %s (path %s): a row 0 <= b with b < 0 is unsatisfiable, with b >= 0 it is trivially true" % (show(p.value, 3), missing, p.label()[:160] or "straight line"), where=fi.where)
+    else:
+        ctx.ok(rule, key, construct + " (%d paths)" % len(ps))
